@@ -46,9 +46,16 @@ def run_one(m, worker, repo):
     if not apply_edits(wd, m['edits']):
         return dict(id=m['id'], status='skipped', why='edit does not apply to the current tree', wall=time.time() - t0)
     tgt = os.path.join(V, '.cache', 'target-w%d' % worker)
+    import fcntl
+    with open(os.path.join(V, '.cache', 'lock-w%d' % worker), 'w') as lk:
+        fcntl.flock(lk, fcntl.LOCK_EX)      # one user of a worker target dir at a time (parallel thorough runs)
+        return _run_locked(m, worker, wd, tgt, t0)
+
+
+def _run_locked(m, worker, wd, tgt, t0):
     if not os.path.isdir(tgt) and os.path.isdir(os.path.join(V, '.cache', 'target')):
         subprocess.run(['cp', '-a', os.path.join(V, '.cache', 'target'), tgt], check=True)
-    facts = os.path.join(V, '.cache', 'facts-mut-w%d.json' % worker)
+    facts = os.path.join(V, '.cache', 'facts-mut-w%d-%d.json' % (worker, os.getpid()))
     env = dict(os.environ, SKAMIR_TARGET=tgt)
     r = subprocess.run([os.path.join(V, 'extract.sh'), facts, wd], env=env, capture_output=True, text=True)
     if r.returncode != 0 or not os.path.exists(facts):
@@ -86,6 +93,7 @@ def main():
     ap = argparse.ArgumentParser()
     ap.add_argument('--props')
     ap.add_argument('--ids')
+    ap.add_argument('--only-prop', help='variants naming this property; run only this property\'s check on them')
     ap.add_argument('--jobs', type=int, default=4)
     ap.add_argument('--repo', default='/repo')
     ap.add_argument('--json')
@@ -97,6 +105,12 @@ def main():
     if a.ids:
         ids = set(a.ids.split(','))
         sel = [m for m in sel if m['id'] in ids]
+    if a.only_prop:
+        sel = [dict(m, props=[a.only_prop]) for m in sel if a.only_prop in m['props']]
+        # a variant expected under another property's key prefix counts when this property reports anything
+        sel = [dict(m, expect=(m['expect'] if (m['expect'] or '').startswith(a.only_prop) else a.only_prop[:1])) if m['kind'] == 'break' else m for m in sel]
+    global SCR
+    SCR = '/tmp/skamut_%d' % os.getpid()
     os.makedirs(SCR, exist_ok=True)
     results = []
     try:
